@@ -281,9 +281,10 @@ def run_impl(pystog, case):
         probe["data"] = np.array([[1.0, 2.0, 3.0], [1.0, 1.1, 0.9]])
         try:
             st.add_dataset(probe)
-            return {"fileflag": got + [float(SL.KINDS.index(info["ReciprocalFunction"]))]}
         except ValueError as e:
             return {"fileflag": [1.0], "rejected": str(e)[:120]}
+        name_ = info["ReciprocalFunction"]
+        return {"fileflag": got + [float(SL.KINDS.index(name_)) if name_ in SL.KINDS else 99.0], "accepted_name": name_}
     if case["kind"] == "attrs":
         if case["mode"] == 1:
             kw = pio.parse_cli_args(pio.get_cli_parser().parse_args(build_argv(case, [])))
@@ -431,7 +432,7 @@ def oracle(pystog, case, res):
     if case["kind"] == "fileflag":
         vals, kind = case["v"]["vals"], case["v"]["kind"]
         if kind == 4:
-            return None if "rejected" in res else "an unknown ReciprocalFunction name given with -f was accepted"
+            return None if "rejected" in res else "the unknown ReciprocalFunction name %r given with -f was accepted instead of rejected" % res.get("accepted_name")
         if "rejected" in res:
             return "a valid -f flag was rejected: %s" % res["rejected"]
         if res["fileflag"] != vals + [float(kind)]:
